@@ -176,6 +176,21 @@ void run_pmeta() {
     std::printf(" ORACLE=%s\n", ld == lm ? "ok" : "FAIL");
 }
 
+#if FASTOR_CXX_VERSION >= 2017
+// permute_mapped_index_t<Index<R...>, Index<O...>> on arbitrary (distinct, equal as sets) label packs
+template<class IdxR, class IdxO>
+void run_pmeta2() {
+    using namespace Fastor; using namespace Fastor::internal;
+    constexpr size_t N = IdxR::Size;
+    using RM = permute_mapped_index_t<IdxR, IdxO>;
+    std::array<size_t,N> r{}, o{}, rv{}, want{};
+    for (size_t k = 0; k < N; ++k) { r[k] = IdxR::values[k]; o[k] = IdxO::values[k]; rv[k] = RM::values[k]; }
+    for (size_t n = 0; n < N; ++n) for (size_t k = 0; k < N; ++k) if (r[k] == o[n]) want[n] = k;   // axis carrying label O[n]
+    std::printf("pmeta2 cfg=%s std=%d R=%s O=%s | REV=%s ORACLE=%s\n", CFGNAME, VF_STD, c14::lst(r).c_str(), c14::lst(o).c_str(),
+                c14::lst(rv).c_str(), rv == want ? "ok" : "FAIL");
+}
+#endif
+
 #ifdef FASTOR_TRANS_OUTER_BLOCK_SIZE
 #define VF_NR FASTOR_TRANS_OUTER_BLOCK_SIZE
 #else
